@@ -3,6 +3,7 @@ package c13
 import (
 	"fmt"
 	"math/big"
+	"strings"
 
 	sdkmath "cosmossdk.io/math"
 	bankkeeper "cosmossdk.io/x/bank/keeper"
@@ -72,7 +73,59 @@ func (b *banRun) step(name, denom string, plainSend bool, credited int, f func(c
 	return err
 }
 
+// runBanSpelling: on a fresh chain, the FIRST non-voting delegation to a validator is made under a
+// non-canonical but decodable spelling of its address (all upper case); the share token that is
+// minted (under the canonical denom) must be just as untransferable as after a canonical delegation.
+func runBanSpelling(cf *emit.CasesFile, st *emit.Stats) error {
+	h := apph.New(apph.Options{NumAccounts: 4})
+	defer h.Close()
+	b := &banRun{h: h, cf: cf, st: st}
+	for _, a := range h.Accts {
+		b.users = append(b.users, a.Addr)
+	}
+	A, B, C := h.Accts[0].Addr, h.Accts[1].Addr, h.Accts[2].Addr
+	bank := bankkeeper.NewMsgServerImpl(h.App.BankKeeper)
+	coin := func(d string, n int64) sdk.Coin { return sdk.NewCoin(d, sdkmath.NewInt(n)) }
+	vals, err := h.App.StakingKeeper.GetAllValidators(h.Ctx())
+	if err != nil || len(vals) == 0 {
+		return nil
+	}
+	valAddr := vals[0].OperatorAddress
+	sc := sckeeper.NewMsgServerImpl(h.App.ShareclassKeeper)
+	for _, spelled := range []string{strings.ToUpper(valAddr), valAddr} {
+		// the share denom of the validator, and the one a handler would derive from the raw string
+		for _, share := range []string{sctypes.NonVotingShareTokenDenom(valAddr), sctypes.NonVotingShareTokenDenom(spelled)} {
+			tag := "canonical"
+			if spelled != valAddr {
+				tag = "upper-case"
+			}
+			_ = b.step("shareclass/NonVotingDelegate "+tag+" validator spelling (mints share to A)", share, false, 0, func(ctx sdk.Context) error {
+				_, err := sc.NonVotingDelegate(ctx, &sctypes.MsgNonVotingDelegate{Sender: A.String(), ValidatorAddress: spelled, Amount: coin(fee, 1_000_000)})
+				return err
+			})
+			_ = b.step("bank/MsgSend share token after "+tag+" delegation", share, true, -1, func(ctx sdk.Context) error {
+				amt := h.Bal(ctx, A, share)
+				if !amt.IsPositive() {
+					amt = sdkmath.NewInt(1)
+				}
+				_, err := bank.Send(ctx, &banktypes.MsgSend{FromAddress: A.String(), ToAddress: B.String(), Amount: sdk.NewCoins(sdk.NewCoin(share, amt.QuoRaw(2).AddRaw(1)))})
+				return err
+			})
+			_ = b.step("bank/MsgMultiSend share token after "+tag+" delegation", share, true, -1, func(ctx sdk.Context) error {
+				_, err := bank.MultiSend(ctx, &banktypes.MsgMultiSend{
+					Inputs:  []banktypes.Input{{Address: A.String(), Coins: sdk.NewCoins(coin(share, 7))}},
+					Outputs: []banktypes.Output{{Address: C.String(), Coins: sdk.NewCoins(coin(share, 7))}}})
+				return err
+			})
+		}
+	}
+	return nil
+}
+
 func runBan(seed int64, cf *emit.CasesFile, st *emit.Stats) error {
+	if err := runBanSpelling(cf, st); err != nil {
+		return err
+	}
 	h := apph.New(apph.Options{NumAccounts: 4})
 	defer h.Close()
 	b := &banRun{h: h, cf: cf, st: st}
